@@ -41,7 +41,7 @@ WORKERS = 16
 
 TIERS = {
     # exhaustive up to `full` nodes; for `full` < n <= `sampled_to`: every shape with `per_shape` seeded labellings
-    "quick": dict(full=6, sampled_to=7, per_shape=36, b1_trees=8, b1_max_nodes=22, b2_trees=14),
+    "quick": dict(full=6, sampled_to=7, per_shape=30, b1_trees=6, b1_max_nodes=22, b2_trees=14),
     "thorough": dict(full=7, sampled_to=8, per_shape=40, b1_trees=30, b1_max_nodes=30, b2_trees=60),
 }
 
@@ -297,7 +297,7 @@ def _worker_b1(task: Dict[str, Any]) -> Dict[str, Any]:
                     oracle = H.oracle_verdicts(atom, tree, grammar)
                     got = H.call_evaluate(atom, tree, grammar, 20.0)
                     gots = [("legacy", got)]
-                    if pair_no % 5 == 0:
+                    if pair_no % 8 == 0:
                         # the same atom through the quantifier-elimination strategy
                         got_qe = H.call_evaluate(atom & numeric_conjunct, tree, grammar, 20.0)
                         gots.append(("qe", got_qe))
